@@ -11,6 +11,7 @@ import (
 	"os"
 	"strings"
 	"testing"
+	"time"
 
 	"pgregory.net/rapid"
 
@@ -251,7 +252,7 @@ func Check(c Case) (hx.Vs, map[string]bool, bool) {
 				o.vs.Add("handler-panic:"+hx.PanicFunc(ps[0]), "step %d (%.160s) made the connection handler panic: %.1500s", si, r.SQL, ps[0])
 				return o.vs, o.classes, false
 			}
-			o.vs.Add("session-broken:"+st.Op, "step %d (%.120s): %v", si, r.SQL, err)
+			o.vs.Add("session-broken:"+st.Op, "step %d (%.120s): %v; proxy errors %v; panics %.600v", si, r.SQL, err, waitProxyErrs(s), s.Panics())
 			return o.vs, o.classes, false
 		}
 		if len(rep.Msgs) == 0 || rep.Msgs[len(rep.Msgs)-1] != "Z" {
@@ -704,4 +705,15 @@ func TestReplay(t *testing.T) {
 		},
 		"TestMySQLPrograms": replayMy,
 	})
+}
+
+// waitProxyErrs gives the proxy loops a moment to report why they ended.
+func waitProxyErrs(s *pgsess.Session) []string {
+	for i := 0; i < 40; i++ {
+		if e := s.ProxyErrors(); len(e) > 0 {
+			return e
+		}
+		time.Sleep(5 * time.Millisecond)
+	}
+	return s.ProxyErrors()
 }
